@@ -78,7 +78,13 @@ ZeroIter == /\ l <= TraceLen /\ LET e == TheTrace[l] IN e.e = "ZeroIter" /\ e.nz
 \* many dimensions: every point inside its bins, weight = product of bins x width (2 d + 4 roundings), finite on uniform grids
 PointHD == /\ l <= TraceLen /\ LET e == TheTrace[l] IN e.e = "PointHD" /\ e.points > 0 /\ e.bad = 0 /\ e.nonfinite = 0
            /\ l' = l + 1 /\ UNCHANGED <<chain, lastOut>>
-Next == ZeroIter \/ GridCase \/ RefStep \/ Default \/ Icdf \/ IcdfTop \/ Point \/ PointHD
+\* the grid the checkpoint hands to the next iteration is the refinement of the last result - also when that result's estimate is exactly
+\* zero because its values cancel (sumZero = 1: the case was really constructed; moved = 1: the refinement is not the identity)
+NextGrid == /\ l <= TraceLen /\ LET e == TheTrace[l] IN
+               /\ e.e = "NextGrid" /\ e.chkId = e.refId
+               /\ ("sumZero" \in DOMAIN e) => (e.sumZero = 1 /\ e.moved = 1)
+            /\ l' = l + 1 /\ UNCHANGED <<chain, lastOut>>
+Next == ZeroIter \/ GridCase \/ RefStep \/ Default \/ Icdf \/ IcdfTop \/ Point \/ PointHD \/ NextGrid
 Spec == Init /\ [][Next]_vars
 TraceAccepted == TraceAcceptedBy(TraceLen)
 =============================================================================
